@@ -59,6 +59,7 @@ class ScriptEnv(gym.Env):
         self.log = []  # ("reset", obs) | ("step", action, obs, reward, term, trunc)
         self.on_step = None  # callback(env) invoked at the top of every step()
         self.n_resets = 0
+        self.sampler_calls_at_step = []  # len(action_space.calls) when step() no. i was entered
 
     def _obs(self):
         if self.discrete_obs:
@@ -90,6 +91,7 @@ class ScriptEnv(gym.Env):
         if self.horizon is not None and self.t >= self.horizon:
             self.log.append(("horizon",))
             raise HorizonExceeded(f"more than {self.horizon} environment steps")
+        self.sampler_calls_at_step.append(len(self.action_space.calls))
         c = self.script[self.t] if self.t < len(self.script) else "c"
         lvl = int(self.levels[self.t]) if self.t < len(self.levels) else 0
         self.t += 1
